@@ -47,7 +47,19 @@ def _rule_backward_conditioning(verdict, scn):
     return bool(d.get("reversed_interval_in_history")) and float(d.get("strain") or 0.0) > 6.0
 
 
+def _rule_large_rotation(verdict, scn):
+    """orthonormality marginally over the bound for a mineral that has been turned through
+    more than 6 rad of rigid rotation (the bound of the statement grows with the number of
+    updates and the strain, not with the rotation angle; LSODA's drift does).  Gross errors
+    (> 5x the bound) and negative determinants are NOT matched."""
+    d = verdict.get("detail") or {}
+    return (float(d.get("rigid_rotation_total_rad") or 0.0) > 6.0
+            and float(d.get("err") or 1e9) <= 5.0 * float(d.get("bound") or 0.0)
+            and float(d.get("min_det") or 0.0) > 0.0)
+
+
 RULES = {
+    "large_rigid_rotation": _rule_large_rotation,
     "backward_conditioning": _rule_backward_conditioning,
     "compact_support_stepped_over": _rule_compact_support,
     "matrix_diffusion_strain": _rule_matrix_diffusion,
